@@ -896,7 +896,12 @@ impl File {
                 // The name denotes nothing now, which is all "missing" means;
                 // treating it as an error would wedge every target that ever
                 // depended on something below that directory.
-                if e.kind() == io::ErrorKind::NotFound || e.raw_os_error() == Some(libc::ENOTDIR) {
+                // ELOOP: the file is (or the path leads through) a symbolic link
+                // that points at itself; a script can leave such a target behind.
+                if e.kind() == io::ErrorKind::NotFound
+                    || e.raw_os_error() == Some(libc::ENOTDIR)
+                    || e.raw_os_error() == Some(libc::ELOOP)
+                {
                     Ok((false, Stamp::MISSING))
                 } else {
                     Err(RedoError::opaque_error(e))
